@@ -8,7 +8,7 @@
 //! C23 (periodic columns) — the polynomials `Air::get_periodic_column_polys` derives from a periodic
 //! column reproduce the column's cycle values at every trace step, evaluated the way the verifier and the
 //! prover's constraint evaluator evaluate them: at x^(trace_length / cycle_length) for the trace-domain
-//! point x = g^step. Over the verification-only field F_17, trace length 8, cycle lengths 2, 4 and 8 (one
+//! point x = g^step. Over the verification-only field F_17, trace length 8, cycle lengths 2 and 4 (one
 //! harness per cycle length), cycle values symbolic.
 #![allow(unused_imports, dead_code)]
 use alloc::vec::Vec;
@@ -111,20 +111,4 @@ pub fn k_c23_periodic_polys_cycle4() {
     vreach!("C23.periodic.4.reach");
 }
 
-//# harness: fn=Air::get_periodic_column_polys (cycle length 8 = trace length); label=bounded(F_17, trace length 8, cycle of 8 symbolic values); tier=quick; uses=reproduces_cycle,any_tiny; timeout=900
-#[cfg_attr(kani, kani::proof)]
-#[cfg_attr(kani, kani::unwind(12))]
-#[cfg_attr(kani, kani::stub(alloc::fmt::format, vs::fake_format))]
-pub fn k_c23_periodic_polys_cycle8() {
-    reproduces_cycle(alloc::vec![
-        any_tiny(),
-        any_tiny(),
-        any_tiny(),
-        any_tiny(),
-        any_tiny(),
-        any_tiny(),
-        any_tiny(),
-        any_tiny()
-    ]);
-    vreach!("C23.periodic.8.reach");
-}
+// (cycle length 8 = trace length with 8 symbolic values did not finish within 25 minutes of solver time; not claimed)
